@@ -11,7 +11,7 @@ THEOREM_OF = {
     "zip-fast-fn": "C12_zip_cache_transparent",
     "purity": "C12_purity_cache_refuted",
     "sig": "C12_sig_cache_sufficient",
-    "pre-eval": "C12_pre_eval_cache_backend_refuted",
+    "pre-eval": "C12_pre_eval_cache_transparent",
 }
 SENTINEL = 4294967295
 
@@ -29,8 +29,8 @@ def run(r):
     r.assumptions += [
         "no collision of the 64-bit RapidHasher hash among the keys of a history (premise of C12_memo_transparent_hashed; "
         "also Function.hash identifies the body: wf_body)",
-        "a Function handle's sig field is determined by its body hash (wf_sig; add_function computes both from the body)",
-        "the comptime cache is only claimed sufficient for nodes that do not read the system backend (Normal mode admits no others; Lsp mode does: open finding)",
+        
+        "the comptime cache's gate is modelled as `does not read the backend`; the code asks is_pure, whose own cache is the open purity finding",
         "nodes reaching the comptime cache contain no CallGlobal (globals = []): matches_nodes admits only constants, which compile to Push",
         "outcomes that differ between two fresh runs (random, time) or hit the execution limit are excluded from the comparison",
     ]
@@ -47,7 +47,8 @@ def run(r):
     shard = 200
     jobs = []
     for si, ch in enumerate(chunks(cases, shard)):
-        body = ";\n".join("TC %s %s %s %s %s %s" % (c["x"], c["y"], str(c["sig_eq"]).lower(), str(c["node_eq"]).lower(), str(c["inv_eq"]).lower(), str(c["zip_eq"]).lower()) for c in ch)
+        body = ";\n".join("TC %s %s %s %s %s %s %s %s %s" % (c["x"], c["y"], str(c["sig_eq"]).lower(), str(c["node_eq"]).lower(), str(c["inv_eq"]).lower(), str(c["zip_eq"]).lower(),
+                                                                str(c["fx"]).lower(), str(c["fy"]).lower(), str(c["anti_eq"]).lower()) for c in ch)
         text = ("From Coq Require Import List NArith. Import ListNotations.\nFrom UV Require Import Model.Memo.\nOpen Scope N_scope.\n"
                 "Definition cases : list tcase := [\n%s\n].\n"
                 "Eval vm_compute in (failing_from tcase_ok 0 cases ++ [%d] ++ flat_map deps_eq cases).\n" % (body, SENTINEL))
@@ -70,9 +71,7 @@ def run(r):
             continue
         for j, c in enumerate(ch):
             inv_same, sig_same, all_same, inv_key_same = deps[4 * j:4 * j + 4]
-            # (pairs that differ in a handle's sig field violate wf_sig: there the signature cache, consulted by the
-            #  inversion, already answers for x; they are compared for keys and for the signature only)
-            if c.get("un_collide", 2) != 2 and c["kind"] != "fn-sig-field":
+            if c.get("un_collide", 2) != 2:
                 stats["cache_behaviour_compared"] = stats.get("cache_behaviour_compared", 0) + 1
                 # the real cache returned x's inverse for y  <=>  the model's inverse keys are equal
                 # (a hit is only used when the cached inverse has no top-level MatchPattern: [usable], un.rs:45-51)
@@ -108,7 +107,7 @@ def run(r):
         c = mism[0]
         r.broken_obligation("tie:Memo.v~cache-keys", "model and implementation disagree on whether two trees have equal cache keys (%d of %d; ingredient %s)"
                             % (len(mism), len(cases), c["kind"]),
-                            json.dumps({"pair": c["show"], "ingredient": c["kind"], "impl": {"sig_key_eq": c["sig_eq"], "node_key_eq": c["node_eq"], "inverse_key_eq": c["inv_eq"], "zip_key_eq": c["zip_eq"]},
+                            json.dumps({"pair": c["show"], "ingredient": c["kind"], "impl": {"anti_key_eq": c["anti_eq"], "sig_key_eq": c["sig_eq"], "node_key_eq": c["node_eq"], "inverse_key_eq": c["inv_eq"], "zip_key_eq": c["zip_eq"]},
                                         "x": c["x"], "y": c["y"]}, ensure_ascii=False))
     r.coverage["tie"]["cache_behaviour_mismatches"] = len(beh_mism)
     if beh_mism:
@@ -162,7 +161,7 @@ def run(r):
                     theorem=THEOREM_OF.get(cache, "C12_memo_transparent"))
         r.sample({"history": v["history"], "in_history": v["hist"][:200], "fresh_thread": v["fresh"][:200], "key": key})
     # the refutation theorems speak about the current code: their real witnesses must still fail
-    expected = {"cache:purity/error": "C12_purity_cache_refuted", "cache:pre-eval/lsp-backend": "C12_pre_eval_cache_backend_refuted"}
+    expected = {"cache:purity/error": "C12_purity_cache_refuted"}
     stale = [k for k in expected if k not in s["violation_counts"]] if rc == 0 else []   # (a search that died is incomplete)
     r.coverage["refutation_witnesses_confirmed"] = [k for k in expected if k in s["violation_counts"]]
     if stale:
